@@ -1,7 +1,7 @@
 """C02 — decided on the sequential tower model (see tools/tower_common.py, DESIGN.md section 5)."""
 import tower_common
 
-TARGETS = ["theories/Properties/C02.v"]
+TARGETS = ["theories/Properties/C02.v", "theories/Properties/C02_sends.v"]
 MON = {"C02"}
 KNOWN = {}
 
